@@ -266,6 +266,8 @@ class Fn:
                         b = b.value if isinstance(b, ast.Subscript) else (b.func.value if isinstance(b.func, ast.Attribute) else None)
                     if isinstance(b, ast.Name):
                         out.add(b.id)
+                    elif isinstance(b, ast.IfExp):
+                        out |= set(alias_names(b))
                 elif isinstance(n, (ast.Assign, ast.AugAssign, ast.Delete)):
                     ts = n.targets if isinstance(n, (ast.Assign, ast.Delete)) else [n.target]
                     for t in ts:
@@ -300,42 +302,16 @@ class Fn:
         return "|".join(sorted(str(d.key()) for d in defs))
 
     def conds_all(self, node: ast.AST) -> list[tuple[ast.expr, bool]]:
-        """*Control* conditions of `node`: the tests (with polarity) whose outcome decides whether `node` is executed.  Those of
-        core.cfg (which drops a condition as a *fact* once something it mentions is re-bound or changed in place), plus the dropped
-        ones whose names still denote the object they denoted when the test was made (after `m = cast(T, m)`, or after the tested
-        container was changed: `if e in acc: continue; acc.add(e); other.discard(p)` - the discard still depends on the test).
-        A dropped condition over a name that was re-bound to something else is not reported (its text would be misleading)."""
-        from .common import conds as conds_at
+        """*Control* conditions of `node`: every test (with polarity) whose outcome decides whether `node` is executed - enclosing
+        branches, earlier early exits of the same blocks, comprehension `if`s, conditional expressions.  Unlike the path conditions
+        of core.cfg (facts, dropped once something they mention is re-bound or changed in place) these are kept: `if e in acc:
+        continue; acc.add(e); other.discard(p)` - the discard still depends on the test although `acc` has changed since."""
+        from core.cfg import expr_conditions
 
-        base = conds_at(self.fi, node)
         if not hasattr(self, "_nokill"):
             self._nokill = path_conditions_nokill(self.fi.node)
         s = stmt_of(node)
-        extra = []
-        have = {(id(e), p) for e, p in base}
-        for e, p in self._nokill.get(id(s), []):
-            if (id(e), p) in have:
-                continue
-            ok = True
-            for n in ast.walk(e):
-                if isinstance(n, ast.Name) and isinstance(n.ctx, ast.Load):
-                    if self._scope_def(n.id, n) is not None:
-                        continue
-                    a = self.name_canon(n.id, self.reaching(n.id, n), stmt_of(n))
-                    b = self.name_canon(n.id, self.reaching_stmt(n.id, s), s)
-                    if a != b:
-                        ok = False
-                        break
-            if ok:
-                extra.append((e, p))
-        # keep the textual order of the tests
-        if not extra:
-            return base
-        order = {(id(e), p): i for i, (e, p) in enumerate(self._nokill.get(id(s), []))}
-        head = [c for c in base if (id(c[0]), c[1]) in order]
-        tail = [c for c in base if (id(c[0]), c[1]) not in order]
-        merged = sorted(head + extra, key=lambda c: order[(id(c[0]), c[1])])
-        return merged + tail
+        return list(self._nokill.get(id(s), [])) + expr_conditions(node)
 
     # ------------------------------------------------------------------ call resolution through copies
     def ctx_of(self, node: ast.AST) -> tuple[FuncInfo, ast.AST]:
